@@ -478,11 +478,12 @@ class Check:
 
 
 def load_findings() -> list[dict]:
-    p = VERIF / "known_findings.json"
-    if not p.exists():
-        return []
-    doc = json.loads(p.read_text())
-    return doc.get("findings", [])
+    """Known findings: findings.d/Cxx.json (one committed file per property, never written at run
+    time); known_findings.json is the generated union of them (tools/mkmanifest.py)."""
+    out: list[dict] = []
+    for p in sorted((VERIF / "findings.d").glob("*.json")):
+        out.extend(json.loads(p.read_text()).get("findings", []))
+    return out
 
 
 def run_isolated(code: str, env: Optional[dict] = None, timeout: int = 120) -> subprocess.CompletedProcess:
